@@ -32,8 +32,10 @@ MANIFEST = dict(
          "list-form get to that value); C18_conditions_exact (for expressions of plain steps name|* [i]|[*] [text() op v], any "
          "length, findall equals the sibling-filter semantics: exactly the siblings passing tag, per-tag index and text test, in "
          "order); C18_deep_wildcard ('**' returns every leaf exactly once in document order, nothing for a document without "
-         "elements). NOT proved, differential only: C18_findfirst_stmt (findfirst = first findall result, outside the class of "
-         "finding C18-d) and C18_in_iff_stmt ('in' true iff findall non-empty); C18_findfirst_cex proves that findfirst differs "
+         "elements); C18_findfirst_partial / C18_in_iff_partial / C18_find_first_prefix (for every expression without a '..' "
+         "step: findfirst is the first findall result, 'in' is true exactly when findall is non-empty, findall never returns "
+         "None and find_first=True yields a prefix). NOT proved, differential only: the same two statements for expressions "
+         "containing '..' (C18_findfirst_stmt outside the class of finding C18-d, C18_in_iff_stmt); C18_findfirst_cex proves that findfirst differs "
          "from the first findall result for '**[1]/..' (known finding C18-d). The step regex is replaced by a hand-written "
          "parser validated against re.match (regex read from the source); the string forms (path split/normalisation, "
          "'/'.join of result paths) and int()/str() are validated by correspondence streams; all seven statements are "
